@@ -95,9 +95,11 @@ specs["C06"] = {"runs": [
     run(CMD + "utils:Harness_walk_period", Q, {"R": 2}, cover=["walked"]),
     run(CMD + "utils:Harness_walk_period", T, {"R": 3}, cover=["walked"]),
     run(CMD + "summary:Harness_summary_day", QT, {}, cover=["ran"], note="concrete supplement: the summary command's real Action (real time.Date/Year/Month/Day) for 6 dates around month/year ends x {today, yesterday, explicit} x time.Local in {UTC, -5h, +13h, -10h}: exactly the headings of that calendar date"),
+    run("cmd/hranoprovod-cli:Harness_app_period", Q, {"R": 2}, cover=["ran"], note="whole application: 10 period-aware command variants x period given globally / on the sub-command / on both (sub-command wins) x {begin, end} present or not x symbolic dates: output = output on the log with the other days deleted and no period"),
+    run("cmd/hranoprovod-cli:Harness_app_period", T, {"R": 3}, cover=["ran"]),
     run(CMD + "options:Harness_today_and_period", QT, {}, cover=["loaded"], note="real urfave/cli Context and flag.FlagSet code: sub-command period overrides the global one; keywords resolve against --today"),
  ], "assumptions": ["dates within a 40-day window for the walk (any order, repeats allowed)"],
- "outside_claim": ["time-zone independence", "internals of time.Parse/AddDate/Date", "flag and environment parsing by urfave/cli"],
+ "outside_claim": ["time-zone independence beyond the summary supplement", "internals of time.Parse/AddDate/Date"],
  "stubs": [TIME, REALSTD]}
 
 agree_owned = ["totals-row-sum", "period-total", "single-element-rows", "balance-grand-total=period-total", "group-by-food", "quantity", "balance-leaf", "unresolved-"]
@@ -125,6 +127,8 @@ specs["C08"] = {"runs": c08 + [
     run(CMD + "balance:Harness_balance_modes", QT, {"F": 2}, "real", owned=["no-panic"]),
     run(CMD + "balance:Harness_reports_agree", QT, {"D": 1, "E": 2}, "real", owned=["no-panic"]),
     run("parser:Harness_parse_flaky", QT, {"R": 2}, owned=["no-panic"]),
+    run("cmd/hranoprovod-cli:Harness_app_bad_input", QT, {}, owned=["no-panic"], note="whole application on malformed and unreadable files"),
+    run("cmd/hranoprovod-cli:Harness_app_settings", Q, {"full": 0}, owned=["no-panic"], note="whole application under every source combination of the settings"),
  ], "assumptions": ["implicit assertions on every explored path: nil dereference, index and slice bounds, failed type assertion, integer division by zero, explicit panic; termination = every path ends within the step and call-depth budgets"],
  "outside_claim": ["arbitrary flag shapes (urfave/cli)", "lines longer than the bound", "stack exhaustion as such for the default limit 10 (recursion depth is bounded by construction, shown for N<=4)", "regexp compilation of --single-food"],
  "stubs": [REALSTD, PF, TIME, FMT]}
@@ -137,12 +141,14 @@ specs["C09"] = {"runs": [ls(c, Q, q, ["malformed-"]) for c in (5, 6)] + [ls(c, T
     run(CMD + "csv:Harness_csv_database_malformed", QT, {"k": 2}, owned=["malformed-", "no-panic"]),
     run(CMD + "csv:Harness_csv_resolved_malformed", QT, {"k": 2}, owned=["malformed-", "no-panic"], cover=["ran"]),
     run(CMD + "stats:Harness_stats_malformed", QT, {"k": 2}, owned=["malformed-", "no-panic"]),
+    run("cmd/hranoprovod-cli:Harness_app_bad_input", QT, {}, owned=["malformed-", "well-formed-"], cover=["ran"], note="whole application: each of 15 file-reading command variants with a malformed line planted in the log or the book: GetApp().Run returns an error quoting the line and its number"),
  ], "assumptions": [PF, "malformed = an indented line whose body has no blank at all (bad syntax), or whose value token starts with a byte that occurs in no Go float literal (bad number)"],
  "outside_claim": ["process exit status (main is `if err != nil { log.Fatal(err) }`)", "stderr text"], "stubs": [REALSTD, FMT]}
 
 specs["C10"] = {"runs": [
     run("parser:Harness_parse_flaky", QT, {"R": 3}, cover=["truncated", "complete"], note="reader fails at every byte offset of files of 1..3 records, chunk sizes 1/7/4096, with and without a final EOL"),
     run(CMD + "utils:Harness_walk_flaky", QT, {}, cover=["truncated", "complete"], note="WalkNodesInStream with and without a period over a reader failing at every offset"),
+    run("cmd/hranoprovod-cli:Harness_app_bad_input", QT, {}, owned=["unreadable-"], cover=["ran"], note="whole application: each of 15 file-reading command variants with the log or the book being a directory (open succeeds, every read fails)"),
     run("parser:Harness_parse_long_line", QT, {}, cover=["long"], max_steps=60000000, note="a 70 000-byte line: the real bufio.ErrTooLong path, executed concretely"),
  ], "assumptions": ["the OS is represented as `Read returns (n, err)`: EISDIR, permissions etc. are a non-EOF error from Read"],
  "outside_claim": ["os.Open failures (reported by ParseFileCallback, not subject here)"], "stubs": [REALSTD]}
@@ -190,12 +196,15 @@ prec_owned = ["explicit-missing-config-is-error", "load-ok", "database:", "logfi
 specs["C16"] = {"runs": [
     run(CMD + "options:Harness_settings_precedence", QT, {}, owned=prec_owned, cover=["loaded"], note="real urfave/cli Context + flag.FlagSet; 4 config-file situations x 2^4 flags x 2^4 config entries"),
     run(CMD + "register:Harness_no_database", QT, {}, cover=["ran"]),
- ], "assumptions": ["gopkg.in/gcfg.v1 ReadInto: contract stub interpreting the documented INI subset and assigning the [Global]/[Resolver] fields", "os.Stat/os.Open: virtual file system (exists / does not exist)"],
- "outside_claim": ["flag > environment: resolved inside urfave/cli from the EnvVars declared in root.go", "$HOME lookup for the default configuration path", "--today parsing (C06)"],
+    run("cmd/hranoprovod-cli:Harness_app_settings", Q, {"full": 0}, owned=prec_owned + ["print-layout=parse-layout"], cover=["loaded"], note="whole application GetApp().Run(args): the real flag definitions of root.go (names, defaults, EnvVars), urfave/cli flag and environment handling, options.Load; flag x env x config entry for one focus setting (the other settings jointly unset / from flags / from env / from config) x 7 configuration-file situations (absent, default location $HOME/.hranoprovod/config, --config, HR_CONFIG, either naming a missing file, --config over HR_CONFIG) x --today"),
+    run("cmd/hranoprovod-cli:Harness_app_settings", T, {"full": 1}, owned=prec_owned + ["print-layout=parse-layout"], cover=["loaded"], max_paths=400000, note="the full product {flag} x {env} x {config entry} over the four settings"),
+ ], "assumptions": ["process environment: os.LookupEnv/syscall.Getenv read a virtual environment set by the harness; os/user.Current returns a user whose home directory is a virtual directory", "gopkg.in/gcfg.v1 ReadInto: contract stub interpreting the documented INI subset and assigning the [Global]/[Resolver] fields", "os.Stat/os.Open: virtual file system (exists / does not exist)"],
+ "outside_claim": ["gcfg's INI parsing", "how the C library / passwd database resolves the home directory", "--today parsing (C06)"],
  "stubs": ["gcfg.ReadInto", "os.Stat, os.Open, (*os.File).Read/Close, os.IsNotExist: virtual FS"]}
 
 specs["C17"] = {"runs": [
     run(CMD + "balance:Harness_failing_output", QT, {}, owned=["lost-output-is-error", "complete-output-succeeds", "something-written"], cover=["ran"], note="19 command variants x sink failing from its 1st/2nd/3rd write or never"),
+    run("cmd/hranoprovod-cli:Harness_app_failing_stdout", QT, {}, owned=["lost-output-is-error", "complete-output-succeeds"], cover=["ran"], note="whole application: 16 command variants writing to the process's standard output (os.Stdout) which rejects every write: GetApp().Run returns an error"),
  ], "assumptions": [BUFIO, CSVW, TMPL], "outside_claim": ["/dev/full, closed pipes, exit status (main is `if err -> log.Fatal`)", "reports longer than bufio's 4096-byte buffer (write-through before Flush)"],
  "stubs": [FMT, TIME, "os.Open: virtual FS"]}
 
